@@ -224,6 +224,11 @@ def ns_expected(calls):
     return ";".join(outs) + "|P:%s/%s" % (j(adsb), j(commb))
 
 
+def MODEL_POST(m):
+    # one empty message ('*;' alone) is the empty line on the model side and the canonical '' on the real side
+    return "''" if m == "" else m
+
+
 def odd_streams(rng, ctx):
     """inputs outside the property's premises (a DF that contradicts the frame length, line noise between and inside AVR
     frames, streams that end exactly at a frame boundary, junk before the first start byte): no documented expectation, the
